@@ -38,22 +38,23 @@ Inductive skipdef := SkipEmpty | SkipRep (e : texpr).
 
 Inductive nlkind := NlCRLF | NlLF | NlCR.
 Inductive spk := KSkip | KSkipChar | KPeek | KPop | KPeekAll | KPopAll.
+Inductive chk := CkRange | CkAny | CkProp (p : N).
 
 (* the value a successful parse stores *)
 Inductive tnode :=
 | NStr
 | NInsens (s e : nat)                         (* content = input[s..e] *)
-| NChar (c : char)
+| NChar (k : chk) (c : char)                  (* CharRange / ANY / unicode property node: `content` *)
 | NSoi | NEoi
 | NNewline (k : nlkind)
 | NSpanned (k : spk) (s e : nat)              (* nodes that carry a `span` field *)
 | NSeq (items : list (list tnode * tnode))    (* (skipped array, matched) per element *)
-| NChoice (i : nat) (t : tnode)
+| NChoice (n i : nat) (t : tnode)             (* variant _i of ChoiceN *)
 | NOpt (o : option tnode)
-| NRep (items : list (list tnode * tnode))
+| NRep (bounded : bool) (items : list (list tnode * tnode))   (* RepeatMinMax / RepeatMin *)
 | NAtomicRep (items : list tnode)
 | NPos (t : tnode) | NNeg | NPush (t : tnode)
-| NDrop | NSlice
+| NDrop | NSlice (two : bool)                 (* PeekSlice2 / PeekSlice1 *)
 | NArr (l : list tnode)
 | NPair (a b : tnode)
 | NEmpty
